@@ -360,12 +360,19 @@ func (s *BooleanSearcher) Advance(ctx *search.SearchContext, ID index.IndexInter
 		}
 
 		if s.shouldSearcher != nil {
-			if s.currShould != nil {
-				ctx.DocumentMatchPool.Put(s.currShould)
-			}
-			s.currShould, err = s.shouldSearcher.Advance(ctx, ID)
-			if err != nil {
-				return nil, err
+			// like mustNot below, the should cursor may already be at or
+			// beyond ID (it runs ahead of currentID). Advancing it again
+			// would hand its current match back to the pool while a
+			// compound should searcher still holds it, and that searcher
+			// does not re-seek, so the match was lost.
+			if s.currShould == nil || s.currShould.IndexInternalID.Compare(ID) < 0 {
+				if s.currShould != nil {
+					ctx.DocumentMatchPool.Put(s.currShould)
+				}
+				s.currShould, err = s.shouldSearcher.Advance(ctx, ID)
+				if err != nil {
+					return nil, err
+				}
 			}
 		}
 
